@@ -57,7 +57,13 @@ TKromeCopy ==
                  /\ Note("KromeCopy:RateValue", Ev.same_rate[k])
        ELSE TRUE
   /\ UNCHANGED tvars
-TNext == TWrite1 \/ TRead1 \/ TModify \/ TWrite2 \/ TRead2 \/ TRerender \/ TExport \/ TKromeCopy
+(* a network holding a reaction WITHOUT a native type code (a Leeds type the exchange format has no code for) may be refused by the writer --
+   loudly, before anything is written; a refusal of any other network is not covered by this *)
+TWriteRefused ==
+  /\ IsEv("WriteRefused") /\ pc = "write1"
+  /\ Chk("WriteSucceeds", \E k \in DOMAIN net : net[k].ty = -1)
+  /\ UNCHANGED tvars
+TNext == TWriteRefused \/ TWrite1 \/ TRead1 \/ TModify \/ TWrite2 \/ TRead2 \/ TRerender \/ TExport \/ TKromeCopy
 TSpec == TInit /\ [][TNext]_<<tvars, tid, l>>
 Track ==
   /\ Chk("Inv:ReadWriteId", ReadWriteId)
